@@ -116,16 +116,19 @@ def check_c12(prog, rep, tier, cfg):
     R = "C12.a"
     fm = [c for c in prog.who_calls(SF + "format_multiline_strings") if c.body.crate.startswith("pasfmt")]
     olf_fmt = "<pasfmt_core::rules::optimising_line_formatter::OptimisingLineFormatter as pasfmt_core::traits::LogicalLineFileFormatter>::format"
-    rep.check({c.body.npath for c in fm} == {olf_fmt} and len(fm) == 1, R, "who-calls:format_multiline_strings", "format_multiline_strings is called from %s" % sorted({short(c.body.npath) for c in fm}),
+    # from OptimisingLineFormatter::format itself or from a closure of it (`lines.filter_map(|line| .. format_multiline_strings(line) ..)`)
+    rep.check({c.body.npath.split("::{closure")[0] for c in fm} == {olf_fmt} and len(fm) == 1, R, "who-calls:format_multiline_strings", "format_multiline_strings is called from %s" % sorted({short(c.body.npath) for c in fm}),
               instance={"callers": sorted({short(c.body.npath) for c in fm})})
     acc = [a for a in prog.field_accesses(OLF + "OptimisingLineFormatterSettings", "format_multiline_strings") if a[3] in ("read", "ref") and "core::fmt::Debug" not in a[0].npath and "core::clone::Clone" not in a[0].npath]
     rep.check({a[0].npath for a in acc} == {olf_fmt}, R, "who-reads:format_multiline_strings", "the setting is read in %s" % sorted({short(a[0].npath) for a in acc}), instance={"readers": sorted({short(a[0].npath) for a in acc})})
     if fm:
-        b = fm[0].body
         from panic import dominating_conditions, source_place
+        from util import family_calls
         ok = False
-        for c in dominating_conditions(b, fm[0].bb):
-            pass
+        # where the call happens in OptimisingLineFormatter::format: its own block, or the block that hands over the closure it is made in
+        ofb = prog.body(olf_fmt)
+        ev = family_calls(prog, ofb, lambda c: (c.callee or "") == SF + "format_multiline_strings") if ofb is not None else []
+        call_bb = ev[0][0] if ev else fm[0].bb
         # the call must be unreachable when the setting is false: find the switch on the (negated) setting
         for (bd, bb, i, kind, s) in acc:
             if kind != "read" or i == "term":
@@ -148,7 +151,7 @@ def check_c12(prog, rep, tier, cfg):
                     other = t["otherwise"]
                     # setting false  <=> Not(val) true  <=> `otherwise` edge when neg
                     false_setting_tgt = other if neg else (zero_tgt[0] if zero_tgt else None)
-                    if false_setting_tgt is not None and fm[0].bb not in bd.reach_from(false_setting_tgt, include_start=True):
+                    if false_setting_tgt is not None and call_bb not in bd.reach_from(false_setting_tgt, include_start=True):
                         ok = True
         rep.check(ok, R, "rewrite-only-if-enabled", "format_multiline_strings is reachable when format_multiline_strings=false", where=fm[0].where(),
                   instance={"guard": "olf_settings.format_multiline_strings"})
